@@ -47,6 +47,22 @@ Proof.
 Qed.
 Print Assumptions C10_order_preserved.
 
+(* the order of two readings on different scales is the order of their images, not of their signs: "a negative reading is below a
+   non-negative one" (seeded changes C10-15, C06-17) fails for -5 on the scale K - 273 against 1 K, on the model's own conversion *)
+Theorem C10_refuted_sign_shortcut :
+  exists x y v, x < 0 /\ 0 <= y /\
+    convert [(1%positive, {[ 5%positive := 1%Z ]}); (2%positive, {[ 5%positive := 1%Z ]})]
+            (translate_ratios [] (MkU pid {[ 2%positive := 1%Z ]} {[ 5%positive := 1%Z ]}) (MkU pid {[ 1%positive := 1%Z ]} {[ 5%positive := 1%Z ]}))
+            [(MkU pid {[ 1%positive := 1%Z ]} {[ 5%positive := 1%Z ]}, [(1%N, 1%Z)]); (MkU pid {[ 2%positive := 1%Z ]} {[ 5%positive := 1%Z ]}, [(2%N, 1%Z)])]
+            (translate_offsets [] (MkU pid {[ 2%positive := 1%Z ]} {[ 5%positive := 1%Z ]}) (MkU pid {[ 1%positive := 1%Z ]} {[ 5%positive := 1%Z ]}) 273)
+            20 x (MkU pid {[ 2%positive := 1%Z ]} {[ 5%positive := 1%Z ]}) (MkU pid {[ 1%positive := 1%Z ]} {[ 5%positive := 1%Z ]}) = COk v /\
+    ~ v < y.
+Proof.
+  exists (-5), 1. eexists. split; [reflexivity|]. split; [discriminate|]. split; [vm_compute; reflexivity|].
+  vm_compute. discriminate.
+Qed.
+Print Assumptions C10_refuted_sign_shortcut.
+
 (* non-vacuity and the shape of the defect repaired by the fix: commit (target prefix applied last):
    scale K, scale C = K - 273 (declared by translate), convert 300 K into milli-C *)
 Definition t_bd : env := [(1%positive, {[ 5%positive := 1%Z ]}); (2%positive, {[ 5%positive := 1%Z ]})].
